@@ -36,6 +36,10 @@ func c10Alphabet() []fsx.Op {
 		fsx.Op{K: "SHRINKCRASH"},                                                       // the server's Crash(): background freeing stops half-way; a new instance on the same disk
 		fsx.Op{K: "READ", H: "root/a", Off: 100 * 4096, Cnt: 8192},                     // hole-filling read
 		fsx.Op{K: "SETATTR", H: "root/d", Size: 64},
+		// refused after the source name has been taken out and before anything is allocated or freed: the target "directory" is a file / a symbolic link
+		fsx.Op{K: "RENAME", H: "root", N: "a", H2: "root/d/a", N2: "x"},
+		fsx.Op{K: "RENAME", H: "root/d", N: "a", H2: "root/s", N2: "x"},
+		fsx.Op{K: "RENAME", H: "root", N: "b", H2: "root/a", N2: "b"},
 	)
 	return out
 }
